@@ -84,8 +84,14 @@ func roleOf(l *Loaded, v ssa.Value, recv string, d int) string {
 		}
 		return b + "." + f
 	case *ssa.IndexAddr:
+		if roleShowIndex {
+			return roleOf(l, x.X, recv, d+1) + "[" + roleOf(l, x.Index, recv, d+1) + "]"
+		}
 		return roleOf(l, x.X, recv, d+1) + "[i]"
 	case *ssa.Index:
+		if roleShowIndex {
+			return roleOf(l, x.X, recv, d+1) + "[" + roleOf(l, x.Index, recv, d+1) + "]"
+		}
 		return roleOf(l, x.X, recv, d+1) + "[i]"
 	case *ssa.Slice:
 		if al, ok := x.X.(*ssa.Alloc); ok {
@@ -167,6 +173,45 @@ func roleOf(l *Loaded, v ssa.Value, recv string, d int) string {
 		return "global:" + x.Name()
 	}
 	return "?" + fmt.Sprintf("%T", v)
+}
+
+// roleShowIndex makes roleOf render index expressions instead of "[i]"
+// (used by the rules that must tell stack[len-1] from stack[len-2]).
+var roleShowIndex bool
+
+// roleOfIdx is roleOf with index expressions rendered.
+func roleOfIdx(l *Loaded, v ssa.Value) string {
+	roleShowIndex = true
+	defer func() { roleShowIndex = false }()
+	return roleOf(l, v, "", 0)
+}
+
+// structStoresAll is structLiteralStores keeping every store per field.
+func structStoresAll(fn *ssa.Function, T *types.Named) []map[string][]ssa.Value {
+	var out []map[string][]ssa.Value
+	allInstrs(fn, func(in ssa.Instruction) {
+		al, ok := in.(*ssa.Alloc)
+		if !ok {
+			return
+		}
+		n := derefNamed(al.Type())
+		if n == nil || n.Obj() != T.Obj() {
+			return
+		}
+		m := map[string][]ssa.Value{}
+		for _, r := range refs(al) {
+			if fa, ok := r.(*ssa.FieldAddr); ok {
+				for _, rr := range refs(fa) {
+					if st, ok := rr.(*ssa.Store); ok && st.Addr == fa {
+						f := fieldName(fa.X.Type(), fa.Field)
+						m[f] = append(m[f], st.Val)
+					}
+				}
+			}
+		}
+		out = append(out, m)
+	})
+	return out
 }
 
 // storedInto returns the unique value stored directly into alloc al.
